@@ -133,8 +133,15 @@ def run(ck):
         if kind == "bet" and rng.random() < 0.6:
             # loading with a Rouquerol maximum somewhere (or nowhere)
             style = rng.random()
-            if style < 0.4:
+            if style < 0.3:
                 ns = [rng.uniform(0.5, 2) for _ in ps]
+            elif style < 0.55:
+                # type-I data on a fine grid: n(1-p) has a flat maximum, the first decrease after it is tiny (and the capacity may be small)
+                nm, k = logu(rng, 1e-4, 1e-1), rng.uniform(15, 120)
+                step = rng.choice([0.0025, 0.005, 0.01])
+                ps = [0.01 + step * j for j in range(int(rng.uniform(0.25, 0.5) / step))]
+                n = len(ps)
+                ns = [nm * k * p / (1 + k * p) for p in ps]
             else:
                 nm, c = logu(rng, 1e-4, 1e-1), logu(rng, 2, 2000)
                 cut = rng.uniform(0.1, 1.2)
@@ -333,8 +340,18 @@ def run(ck):
         ref = nm * 1000 * c * pa / ((1 - pa) * (1 - pa + c * pa))
         a_pt, a_ref = float(np.interp(0.4, pa, ref)) or 1.0, rng.uniform(1, 2000)
         ld = s_ * (ref / a_pt) + i_
-        res, curve = al.alpha_s_raw(ld, ref, a_pt, np.float64(a_ref), rho, M, t_limits=(float(min(ref / a_pt)) * 0.99, float(max(ref / a_pt)) * 1.01))
+        ref_before = ref.copy()
+        res, curve = al.alpha_s_raw(ld, ref, a_pt, np.float64(a_ref), rho, M, t_limits=(float(min(ref_before / a_pt)) * 0.99, float(max(ref_before / a_pt)) * 1.01))
         ck.count(("alphas", i), bucket="recover:alpha-s raw")
+        if not np.array_equal(ref, ref_before):
+            ck.fail_case({"method": "alpha-s", "clause": "the caller's reference array is modified by the analysis"}, {"alpha_s_point": a_pt, "before": ref_before[:3].tolist(), "after": ref[:3].tolist()})
+            ref = ref_before.copy()
+        # the reference against itself (same array object as sample and as reference) returns the reference area
+        own = ref.copy()
+        res_self, _ = al.alpha_s_raw(own, own, a_pt, np.float64(a_ref), rho, M, t_limits=(float(min(ref / a_pt)) * 0.99, float(max(ref / a_pt)) * 1.01))
+        if res_self and relerr(float(res_self[0]["area"]), a_ref) > 1e-6:
+            ck.fail_case({"method": "alpha-s", "clause": "alpha-s against itself does not return the reference area", "entry": "raw arrays"},
+                         {"alpha_s_point": a_pt, "reference_area": a_ref, "got": float(res_self[0]["area"])})
         if res:
             r = res[0]
             errs = {"slope": note("alphas.slope", r["slope"], s_), "area": note("alphas.area", r["area"], a_ref / a_pt * s_)}
